@@ -56,12 +56,37 @@ fn calc_decimal(op: &str, a: Decimal, b: Decimal) -> Result<Decimal> {
             if op.starts_with('/') {
                 a.checked_div(b)
             } else {
-                a.checked_rem(b)
+                exact_rem(a, b)
             }
         }
         _ => Some(a),
     };
     ans.ok_or(Error::NumberOverflow)
+}
+
+/// Exact remainder with the sign of the dividend. Decimal's own `%` loses digits when the scales of
+/// the operands are far apart (`9223372036854775807 % 1.0000000000000000000000000001`), so the
+/// remainder is taken on the integer mantissas: both are below 2^96, which leaves room in a u128.
+fn exact_rem(a: Decimal, b: Decimal) -> Option<Decimal> {
+    let (sa, sb) = (a.scale(), b.scale());
+    let (ma, mb) = (a.mantissa().unsigned_abs(), b.mantissa().unsigned_abs());
+    let (rem, scale) = if sa >= sb {
+        // bring the divisor to the dividend's scale; if that outgrows u128 it exceeds any dividend
+        match 10u128.checked_pow(sa - sb).and_then(|p| mb.checked_mul(p)) {
+            Some(d) => (ma % d, sa),
+            None => (ma, sa),
+        }
+    } else {
+        // (ma * 10^k) mod mb, one digit at a time: the running remainder stays below mb
+        let mut rem = ma % mb;
+        for _ in 0..(sb - sa) {
+            rem = (rem * 10) % mb;
+        }
+        (rem, sb)
+    };
+    let mut ans = Decimal::try_from_i128_with_scale(rem as i128, scale).ok()?;
+    ans.set_sign_negative(a.is_sign_negative() && rem != 0);
+    Some(ans)
 }
 
 fn calc_integer(op: &str, a: i64, b: i64) -> Result<i64> {
